@@ -288,3 +288,10 @@ def run(case):
     if r4 is not None:
         out.check(np.array_equal(np.asarray(r4[1], bool), valid) and np.array_equal(np.asarray(r4[2])[valid], np.asarray(pairs)[valid]), "direction_not_label_swap", "")
     return out
+
+
+# rejected calls that run before every case (vlib/faults.py): nothing they leave behind - module state, library options,
+# stray files - may make the valid calls of the case violate the statement
+from vlib import faults as _faults  # noqa: E402
+
+fault_calls = _faults.for_property(ID)
